@@ -401,9 +401,9 @@ Definition instr_ok (v : var) (i : dinstr S) : Prop :=
   match i with
   | DOp o => darrs_ok o /\
              (if is_shift (d_lin S o) then d_order1 S o = [] else coef_ok o v)
-  | DPlain OWait => True
-  | DPlain (OPD p false) => dv p = k0
-  | DPlain _ => False      (* SPOILER / RESET / PD(reset): partials are not propagated by the code *)
+  | DPlain OWait | DPlain OSpoil | DPlain OReset => True
+  | DPlain (OPD p _) => dv p = k0          (* the density is a constant *)
+  | DPlain _ => False                      (* ScalarOp / MatrixOp / S are differentiable operators: DOp *)
   end.
 
 Definition inv (v : var) (n : nat) (ds : dstate S) : Prop :=
@@ -506,13 +506,49 @@ Proof.
     + apply step_nonshift; auto. now rewrite El.
     + now apply (step_shift v n o ds d nm).
   - destruct Hinv as (Hs & He & Hp & Hv).
-    destruct o as [| | | | |p r|]; try contradiction; [destruct r; [contradiction|]|].
-    + (* PD without reset: only the equilibrium changes, by a constant *)
-      cbn [instr_ok] in Hi. unfold inv. cbn [d_main d_p1 op_n apply].
-      split; [now apply pd_shaped|split; [|split]]; auto.
-      intros k. rewrite (gete_pd S p false _ n k Hs). destruct (k =? 0); [|apply dT_t0].
-      unfold dT; cbn [fp fm fz]. now rewrite Hi, dv_0.
-    + exact (conj Hs (conj He (conj Hp Hv))).
+    unfold inv. cbn [d_main d_p1]. unfold map_partials. rewrite alookup_map_values.
+    destruct o as [| | | | |p r|]; try contradiction; cbn [op_n Views.op_n apply apply_partial instr_ok] in *.
+    + (* SPOILER: transverse components zeroed, in the state and in the partial *)
+      split; [now apply spoil_shaped|split; [exact He|split]].
+      * destruct (alookup Nat.eqb v (d_p1 ds)) as [q|]; cbn [omap opshaped apply_partial apply]; auto.
+        destruct Hp as [Hq1 Hq2]. split; [now apply spoil_shaped|exact Hq2].
+      * intros k. rewrite get_spoil. specialize (Hv k).
+        destruct (alookup Nat.eqb v (d_p1 ds)) as [q|]; cbn [omap oget apply_partial apply] in *.
+        -- rewrite get_spoil, Hv. unfold dT; cbn [fp fm fz]. now rewrite dv_0.
+        -- unfold dT in *; cbn [fp fm fz]. unfold t0 in *. injection Hv as _ _ H3. now rewrite dv_0, <- H3.
+    + (* RESET: back to the (constant) equilibrium; the partial, whose equilibrium is zero, becomes zero *)
+      split; [now apply (reset_shaped S (d_main ds) n)|split; [|split]].
+      * intros k. rewrite (gete_reset S _ n k Hs). destruct (k =? 0); [apply He|apply dT_t0].
+      * destruct (alookup Nat.eqb v (d_p1 ds)) as [q|]; cbn [omap opshaped apply_partial apply]; auto.
+        destruct Hp as [Hq1 Hq2]. split; [now apply (reset_shaped S q n)|].
+        intros k. rewrite (gete_reset S _ n k Hq1). destruct (k =? 0); auto.
+      * intros k. rewrite (get_reset S _ n k Hs).
+        assert (E : dT (if k =? 0 then gete (d_main ds) 0 else t0) = t0) by (destruct (k =? 0); [apply He|apply dT_t0]).
+        rewrite E. destruct (alookup Nat.eqb v (d_p1 ds)) as [q|]; cbn [omap oget opshaped apply_partial apply] in *; auto.
+        destruct Hp as [Hq1 Hq2]. rewrite (get_reset S _ n k Hq1). destruct (k =? 0); auto.
+    + (* PD: only the equilibrium changes, by a constant; with reset the partial becomes zero *)
+      assert (Ee : forall k, dT (gete (apply_pd p r (d_main ds)) k) = t0).
+      { intros k. rewrite (gete_pd S p r _ n k Hs). destruct (k =? 0); [|apply dT_t0].
+        unfold dT; cbn [fp fm fz]. now rewrite Hi, dv_0. }
+      split; [now apply pd_shaped|split; [exact Ee|]].
+      destruct r.
+      * split.
+        -- destruct (alookup Nat.eqb v (d_p1 ds)) as [q|]; cbn [omap opshaped apply_partial apply]; auto.
+           destruct Hp as [[Hq1 Hq3] Hq2]. split; [split; cbn [st equ]; [now rewrite map_length|exact Hq3]|exact Hq2].
+        -- intros k. rewrite (get_pd S p true _ n k Hs).
+           assert (E : dT (if k =? 0 then mk3 k0 k0 p else t0) = t0).
+           { destruct (k =? 0); [|apply dT_t0]. unfold dT; cbn [fp fm fz]. now rewrite Hi, dv_0. }
+           rewrite E. destruct (alookup Nat.eqb v (d_p1 ds)) as [q|]; cbn [omap oget apply_partial apply]; auto.
+           unfold Views.get. cbn [st]. change (map (fun _ : triple => t0) (st q)) with (map (fun _ : triple => @t0 S) (st q)).
+           rewrite (getZ_map_st S q (fun _ => t0) k eq_refl). reflexivity.
+      * split.
+        -- destruct (alookup Nat.eqb v (d_p1 ds)) as [q|]; cbn [omap opshaped apply_partial apply]; auto.
+        -- intros k. rewrite (get_pd S p false _ n k Hs). specialize (Hv k).
+           destruct (alookup Nat.eqb v (d_p1 ds)) as [q|]; cbn [omap oget apply_partial apply] in *; auto.
+    + (* Wait *)
+      split; [exact Hs|split; [exact He|split]].
+      * destruct (alookup Nat.eqb v (d_p1 ds)) as [q|]; cbn [omap opshaped apply_partial apply]; auto.
+      * intros k. specialize (Hv k). destruct (alookup Nat.eqb v (d_p1 ds)) as [q|]; cbn [omap oget apply_partial apply] in *; auto.
 Qed.
 
 Fixpoint run_n (prog : list (dinstr S)) (n : nat) : nat :=
